@@ -9,7 +9,7 @@ interpreter. A True verdict of DependencyTools.can_loop_be_parallelised /
 Loop.independent_iterations is refuted by two distinct iterations of the
 same loop execution touching one location with at least one write (scalars
 that every iteration unconditionally writes before reading are exempt, as
-are loop variables). Termination: the analysis runs under a 30 s alarm.
+are loop variables). Termination: the analysis runs under a 60 s CPU-time alarm.
 """
 import signal
 
@@ -34,7 +34,7 @@ ASSUMPTIONS = [
     "exemption implemented as worded: a scalar whose first access in EVERY "
     "executed iteration is a write by a statement not nested in an IF / "
     "inner loop / WHILE of the loop body",
-    "termination bound 30 s per analysis call (normal cost: milliseconds)",
+    "termination bound 60 s of process CPU time per analysis call (normal cost: milliseconds)",
 ]
 
 PROFILE = gf.make_profile(
@@ -48,7 +48,7 @@ PROFILE_NAMES = gf.make_profile(
     helpers=(0, 0), nstmts=(2, 4), array_intrinsics=False, functions=False,
     extra_int_scalars=("d_i", "d1_i", "d_j"))
 
-TIMEOUT = 30
+TIMEOUT = 60
 
 
 class Timeout(Exception):
@@ -62,14 +62,16 @@ def _alarm(signum, frame):
 def verdicts(loop):
     """(can_loop_be_parallelised, independent_iterations) under a timeout."""
     from psyclone.psyir.tools import DependencyTools
-    old = signal.signal(signal.SIGALRM, _alarm)
-    signal.alarm(TIMEOUT)
+    # CPU-time (user+system) timer of THIS process: independent of the
+    # machine load, so a busy machine can never fake a non-termination
+    old = signal.signal(signal.SIGPROF, _alarm)
+    signal.setitimer(signal.ITIMER_PROF, TIMEOUT)
     try:
         one = DependencyTools().can_loop_be_parallelised(loop)
         two = loop.independent_iterations()
     finally:
-        signal.alarm(0)
-        signal.signal(signal.SIGALRM, old)
+        signal.setitimer(signal.ITIMER_PROF, 0)
+        signal.signal(signal.SIGPROF, old)
     return bool(one), bool(two)
 
 
